@@ -195,11 +195,12 @@ def evaluate(spec, name, N, kinds_in, kind_out, inputs):
     return flat(kind_out, N, spec[name](N, *fulls))
 
 
-def compare(expected, observed, tol=1e-9):
-    """index of the first component that differs beyond rounding (scaled by the largest magnitude), or None"""
+def compare(expected, observed, tol=1e-9, scale0=1.0):
+    """index of the first component that differs beyond rounding (scaled by the largest magnitude of results and of
+    the intermediate terms, bounded by scale0), or None"""
     if len(expected) != len(observed):
         return -1
-    scale = max([1.0] + [abs(x) for x in expected] + [abs(x) for x in observed])
+    scale = max([1.0, scale0] + [abs(x) for x in expected] + [abs(x) for x in observed])
     for k, (e, o) in enumerate(zip(expected, observed)):
         if not (abs(e - o) <= tol * scale):
             return k
